@@ -363,7 +363,7 @@ GRID = {
 
 def jobs(tier):
     q = tier == "quick"
-    T = 150 if q else 900
+    T = 300 if q else 900
     J = []
 
     def add(fn, **part):
